@@ -106,6 +106,10 @@ class SizeConstraint(Constraint):
             self.size_max is not None
         ), "Cannot assert the end of a constraint before having initialized it."
 
+        if self.is_obsolete:
+            # already finalized, e.g. exceeded (and skipped to its end) before
+            return
+
         # finalize self and remove it from constraint list
         self.is_obsolete = True
 
